@@ -113,7 +113,19 @@ func cmdSelfcheck(argv []string) int {
 	for _, u := range []string{"\xc3\xa9", "a\xc3", "\xc3a", "\xc2\x80", "\xc1\xbf", "\xc0\x80", "\xdf\xbf", "\xe0\xa0\x80", "\xe0\x9f\xbf", "\xed\x9f\xbf", "\xed\xa0\x80", "\xef\xbf\xbd", "\xe4\xb8\xad", "\xe4\xb8", "\xe4", "\xf0\x90\x80\x80", "\xf0\x8f\xbf\xbf", "\xf4\x8f\xbf\xbf", "\xf4\x90\x80\x80", "\xf5\x80\x80\x80", "\xff", "\x80", "\xbf\xbf", "x\xf0\x9f\x98\x80y", "\xf0\x9f\x98", "\xe2\x82\xac1", "\xc3\xa9\xc3\xbc", "1.0\xc3\xa9"} {
 		jobs = append(jobs, job{"utf8", u, "", false})
 	}
+	// every ASCII byte through strconv.Quote / %q (eco "quote"): the native run must also confirm the escape table
+	for lo := 0; lo < 128; lo += 16 {
+		b := make([]byte, 16)
+		for k := range b {
+			b[k] = byte(lo + k)
+		}
+		jobs = append(jobs, job{"quote", string(b), "", false})
+	}
 	for i, j := range jobs {
+		if j.eco == "quote" {
+			cases = append(cases, ReplayCase{ID: fmt.Sprint(i), Func: "VXSelfQuoteReport", Args: []string{strconv.Quote(j.a)}})
+			continue
+		}
 		if j.eco == "utf8" {
 			cases = append(cases, ReplayCase{ID: fmt.Sprint(i), Func: "VXSelfUTF8Report", Args: []string{strconv.Quote(j.a)}})
 			continue
@@ -141,6 +153,14 @@ func cmdSelfcheck(argv []string) int {
 			return 2
 		}
 		want, _ := strconv.Atoi(o.Msg)
+		if j.eco == "quote" {
+			if want != 1 {
+				fmt.Fprintf(os.Stderr, "selfcheck: the escape table used by the strconv.Quote lemma disagrees with the real strconv.Quote on %q\n", j.a)
+				return 2
+			}
+			cfgs = append(cfgs, &Config{ID: fmt.Sprintf("self/quote/%q", j.a), Pkg: zzhPkg, Func: "VXSelfQuote", Args: []ArgSpec{ArgStr(j.a), ArgInt(int64(want))}})
+			continue
+		}
 		if j.eco == "utf8" {
 			cfgs = append(cfgs, &Config{ID: fmt.Sprintf("self/utf8/%q", j.a), Pkg: zzhPkg, Func: "VXSelfUTF8", Args: []ArgSpec{ArgStr(j.a), ArgInt(int64(want))}})
 			continue
@@ -244,6 +264,8 @@ func selfcheckStd(p *Program) int {
 	for _, t := range []string{"{[\\x00-\\xdf\\xf5-\\xff]}", "{[\\xc2-\\xdf]}{[\\x80-\\xbf]}", "{a}{[\\xc2-\\xdf]}{[\\x80-\\xbf]}{a}"} {
 		ls = append(ls, lemma{"VXStdCase", []ArgSpec{ArgTmpl(t)}})
 	}
+	// strconv.Quote / %q over every pair of ASCII bytes
+	ls = append(ls, lemma{"VXStdQuote", []ArgSpec{ArgTmpl("{[\\x00-\\x7f]}{[\\x00-\\x7f]}")}})
 	// for-range rune decoding over all byte strings of length 1-3 and 4-byte strings with a 4-byte lead
 	for _, t := range []string{"{B}", "{B}{B}", "{B}{B}{B}", "{[\\xf0-\\xf7]}{B}{B}{B}"} {
 		ls = append(ls, lemma{"VXStdUTF8", []ArgSpec{ArgTmpl(t)}})
